@@ -211,12 +211,21 @@ func (sgi ShardGroupInfo) TargetShards(mst *MeasurementInfo, ski *ShardKeyInfo, 
 	return shards
 }
 
+// maxConditionTagGroups bounds the number of tag groups getConditionTags builds for a
+// conjunction of disjunctions; beyond it only the left operand of the conjunction is used.
+const maxConditionTagGroups = 1024
+
+// getConditionTags returns the groups of tag equalities implied by the condition: a row
+// that satisfies the condition carries all the tags of at least one group. nil means that
+// the condition does not constrain the tags (every shard may hold a matching row).
 func getConditionTags(condition influxql.Expr, schema *CleanSchema) []*influx.PointTags {
 	if condition == nil {
 		return nil
 	}
 
 	switch expr := condition.(type) {
+	case *influxql.ParenExpr:
+		return getConditionTags(expr.Expr, schema)
 	case *influxql.BinaryExpr:
 		switch expr.Op {
 		case influxql.AND:
@@ -226,24 +235,32 @@ func getConditionTags(condition influxql.Expr, schema *CleanSchema) []*influx.Po
 			if ltags == nil {
 				return rtags
 			}
+			if rtags == nil {
+				return ltags
+			}
+			// a point satisfies "l AND r" iff it satisfies one group of each side:
+			// the groups of the conjunction are the cross product of the operands' groups.
+			if len(ltags)*len(rtags) > maxConditionTagGroups {
+				// too many combinations: the left operand alone still holds for every match.
+				return ltags
+			}
+			tags := make([]*influx.PointTags, 0, len(ltags)*len(rtags))
 			for i := range ltags {
 				for j := range rtags {
-					for ti := range *rtags[j] {
-						if v, ok := schema.GetTyp((*rtags[j])[ti].Key); ok && v == influx.Field_Type_Tag {
-							*ltags[i] = append(*ltags[i], (*rtags[j])[ti])
-						}
-					}
+					group := make(influx.PointTags, 0, len(*ltags[i])+len(*rtags[j]))
+					group = append(group, *ltags[i]...)
+					group = append(group, *rtags[j]...)
+					tags = append(tags, &group)
 				}
 			}
-			return ltags
+			return tags
 		case influxql.OR:
 			ltags := getConditionTags(expr.LHS, schema)
 			rtags := getConditionTags(expr.RHS, schema)
-			if ltags == nil {
-				return rtags
-			}
-			if rtags == nil {
-				return ltags
+			// an operand without tag constraints can be satisfied in any shard,
+			// so the disjunction is not constrained either.
+			if ltags == nil || rtags == nil {
+				return nil
 			}
 			return append(ltags, rtags...)
 		case influxql.EQ:
